@@ -2,6 +2,7 @@ package vsim
 
 import (
 	"fmt"
+	"os"
 	"runtime"
 	"sync"
 	"time"
@@ -43,7 +44,14 @@ func c09Clique(p vbase.Params, r *vbase.Result, async bool) {
 	if async {
 		cases = p.N(2400, 60000)
 	}
+	dbg := -1
+	if v := os.Getenv("VERIF_DEBUG_CASE"); v != "" {
+		fmt.Sscan(v, &dbg)
+	}
 	for i := 0; i < cases; i++ {
+		if dbg >= 0 && i != dbg {
+			continue
+		}
 		rng := vbase.NewRng(p.Seed, "C09.clique", async, p.Shard, p.NShards, i)
 		nn := []int{4, 4, 7}[rng.Intn(3)]
 		scheme := crypto.NameEDDSA
@@ -66,6 +74,15 @@ func c09Clique(p vbase.Params, r *vbase.Result, async bool) {
 			return
 		}
 		subj := c.Actors[0]
+		subj.M.Logger.Keep = 120
+		if dbg >= 0 {
+			subj.M.Logger.Keep = 300
+			defer func() {
+				for _, l := range subj.M.Logger.Tail() {
+					fmt.Fprintln(os.Stderr, l)
+				}
+			}()
+		}
 		q := c.W.Q()
 		var qcs []hotstuff.QuorumCert
 		var qmu sync.Mutex
@@ -110,7 +127,14 @@ func c09Clique(p vbase.Params, r *vbase.Result, async bool) {
 			if err != nil {
 				panic(err)
 			}
-			items = append(items, voteItem{From: id, Kind: "honest", PC: pc, Real: []hotstuff.ID{id}, Plain: true})
+			it := voteItem{From: id, Kind: "honest", PC: pc, Real: []hotstuff.ID{id}, Plain: true}
+			if c.W.LibraryDefect(pc.Signature(), func(hotstuff.ID) []byte { return B.ToBytes() }) {
+				// the collector cannot verify this genuine vote because of the pairing library defect (vk/blsref.go)
+				it.Plain = false
+				it.Kind = "honest-but-library-rejects"
+				r.Obs("bls_library_defect_votes", 1)
+			}
+			items = append(items, it)
 		}
 		hostile := rng.Range(0, 5)
 		for k := 0; k < hostile; k++ {
@@ -178,7 +202,7 @@ func c09Clique(p vbase.Params, r *vbase.Result, async bool) {
 			}
 			bad = true
 			r.Violate(vbase.Sig("votes-"+rule, "scheme", scheme, "async", async), fmt.Sprintf(format, a...)+fmt.Sprintf(" [n=%d q=%d %s arrival=%v]", nn, q, scheme, seq),
-				map[string]any{"engine": "subject", "seed": p.Seed, "shard": p.Shard, "nshards": p.NShards, "case": i, "arrival": seq})
+				map[string]any{"engine": "subject", "seed": p.Seed, "shard": p.Shard, "nshards": p.NShards, "case": i, "arrival": seq, "subject_log": subj.M.Logger.Tail()})
 		}
 		quiesce := func() {
 			if !async {
@@ -236,6 +260,10 @@ func c09Clique(p vbase.Params, r *vbase.Result, async bool) {
 					// replica 2 must know B to verify
 					c.W.M(2).Chain.Store(B)
 					if err := c.W.M(2).Auth.VerifyQuorumCert(qc); err != nil {
+						if c.W.LibraryDefect(qc.Signature(), func(hotstuff.ID) []byte { return B.ToBytes() }) {
+							r.Obs("bls_library_defect_cases_skipped", 1)
+							return
+						}
 						fail("emitted-qc-unverifiable", "the QC for B produced by the collector does not verify at replica 2: %v", err)
 						return
 					}
@@ -255,6 +283,12 @@ func c09Clique(p vbase.Params, r *vbase.Result, async bool) {
 					return
 				}
 			}
+			// the statement is about a block newer than the collector's highest known QC: if another block of the same or a
+			// later view was certified meanwhile (possible here because more than f puppets may double-vote), B is out of scope
+			if hq := subj.Node.VS.HighQC(); hq.View() >= B.View() && hq.BlockHash() != B.Hash() {
+				r.Obs("cases_where_another_block_was_certified_first", 1)
+				return
+			}
 			if !got && len(S1) >= q && (final || !async) {
 				fail("qc-prevented", "genuine single-signer votes for B from %d distinct replicas %v have arrived (q=%d) but no QC for B was produced", len(S1), vk.SortedIDs(S1), q)
 			}
@@ -264,7 +298,15 @@ func c09Clique(p vbase.Params, r *vbase.Result, async bool) {
 			before := c.W.Log.CountBy(1)
 			c.inject(2, subj, hotstuff.ProposeMsg{ID: 2, Block: B})
 			quiesce()
-			if c.W.Log.CountBy(1) > before && c.W.Log.Signed(1, B.ToBytes()) {
+			ownOK := true
+			if ss := c.W.Log.SigsFor(1, B.ToBytes()); len(ss) > 0 && scheme == crypto.NameBLS12 {
+				var bf crypto.Bitfield
+				bf.Add(1)
+				if s, err := crypto.RestoreBLS12AggregateSignature(ss[0], bf); err == nil && c.W.LibraryDefect(s, func(hotstuff.ID) []byte { return B.ToBytes() }) {
+					ownOK = false
+				}
+			}
+			if c.W.Log.CountBy(1) > before && c.W.Log.Signed(1, B.ToBytes()) && ownOK {
 				// the subject voted for B itself; as next leader it collects its own vote
 				S1[1], S2[1] = true, true
 			}
